@@ -50,6 +50,14 @@ def Heap.wellFormedB (h : Heap) : Bool :=
     | GVal.ref j => decide (j < oi.2)
     | GVal.atom _ => true))
 
+/-- Path elements of the children of one object are pairwise distinct (dict keys, list
+    indices, argument names: true of every flatten in the registry). -/
+def Heap.PathsDistinct (h : Heap) : Prop :=
+  ∀ (i : Nat) (o : GObj), h[i]? = some o → (o.children.map (·.1)).Nodup
+
+def Heap.pathsDistinctB (h : Heap) : Bool :=
+  h.all (fun o => decide ((o.children.map (·.1)).Nodup))
+
 /-! ## follow_path -/
 
 def childAt (o : GObj) (pe : PElem) : Option GVal :=
